@@ -72,6 +72,27 @@ Proof.
   destruct (w_open x); congruence.
 Qed.
 
+Lemma dw_result_effect st w wr ks st' :
+  open_writer_of st w = Some wr -> dw_result st w wr ks st' -> effect st st'.
+Proof.
+  intros Ew H. destruct H.
+  - apply eff_quiet; simpl; auto; try constructor. intros x _. simpl. split; [lia|reflexivity].
+  - apply eff_quiet; simpl; auto; try constructor.
+    intros x Hx. simpl. rewrite (open_writer_of_seq _ _ _ Ew) in Hx. injection Hx as <-. split; [lia|reflexivity].
+  - eapply (eff_push st _ w wr ks); simpl; auto.
+Qed.
+
+(* the same from a state that differs only in the background-writer table *)
+Lemma dw_result_effect_bg st b w wr ks st' :
+  open_writer_of st w = Some wr -> dw_result (set_bg st b) w wr ks st' -> effect st st'.
+Proof.
+  intros Ew H. destruct H.
+  - apply eff_quiet; simpl; auto; try constructor. intros x _. simpl. split; [lia|reflexivity].
+  - apply eff_quiet; simpl; auto; try constructor.
+    intros x Hx. simpl. rewrite (open_writer_of_seq _ _ _ Ew) in Hx. injection Hx as <-. split; [lia|reflexivity].
+  - eapply (eff_push st _ w wr ks); simpl; auto.
+Qed.
+
 Lemma vstep_effect st o st' : In st' (vstep st o) -> effect st st'.
 Proof.
   unfold vstep. destruct (driver_blocked st); [intros []|].
@@ -79,18 +100,13 @@ Proof.
   - destruct (alookup w (st_writers st)) eqn:El; [intros [<-|[]]; apply eff_quiet; auto; constructor|].
     destruct (open_writer_ok st w chans auths); intros [<-|[]]; apply eff_quiet; simpl; auto; try constructor.
     exact El.
-  - intros [<-|[]]. apply eff_quiet; simpl; auto; try constructor. intros wr _. simpl. split; [lia|reflexivity].
-  - intros [<-|[]]. apply eff_quiet; simpl; auto; try constructor. intros wr _. simpl. split; [lia|reflexivity].
+  - destruct (bg_active st w); intros [<-|[]]; apply eff_quiet; simpl; auto; try constructor.
+    intros wr _. simpl. split; [lia|reflexivity].
+  - destruct (bg_active st w); intros [<-|[]]; apply eff_quiet; simpl; auto; try constructor.
+    intros wr _. simpl. split; [lia|reflexivity].
   - destruct (open_writer_of st w) as [wr|] eqn:Ew; [|intros [<-|[]]; apply eff_quiet; auto; constructor].
-    destruct (bad_hits st wr keys bad || negb (valid_frame st wr keys)).
-    { intros [<-|[]]. apply eff_quiet; simpl; auto; try constructor. intros x _. simpl. split; [lia|reflexivity]. }
-    destruct (streams (w_mode wr) && negb (st_closed st && negb (st_deadinlet st))) eqn:Es.
-    + match goal with |- In _ (if ?c then _ else _) -> _ => destruct c eqn:Eg end; [|intros []].
-      intros [<-|[]]. apply andb_true_iff in Es. destruct Es as [Es _].
-      eapply (eff_push st _ w wr keys); simpl; auto.
-      destruct (st_closed st); [apply Nat.ltb_lt in Eg; lia|apply Nat.leb_le in Eg; exact Eg].
-    + intros [<-|[]]. apply eff_quiet; simpl; auto; try constructor.
-      intros x Hx. simpl. rewrite (open_writer_of_seq _ _ _ Ew) in Hx. injection Hx as <-. split; [lia|reflexivity].
+    destruct (bg_active st w); [intros [<-|[]]; apply eff_quiet; auto; constructor|].
+    intros H. apply do_write_cases in H. eapply dw_result_effect; eauto.
   - destruct (st_closed st); [intros [<-|[]]; apply eff_quiet; auto; constructor|].
     destruct (alookup s (st_strs st)); intros [<-|[]]; apply eff_quiet; simpl; auto; constructor.
   - destruct (st_closed st); intros [<-|[]]; apply eff_quiet; simpl; auto; try constructor.
@@ -109,11 +125,16 @@ Proof.
       destruct H as [<-|[]]. apply eff_quiet; simpl; auto; constructor.
     + destruct (st_fifo st) as [|f q] eqn:Ef; [destruct H|].
       apply in_map_iff in H. destruct H as (ss & <- & Hss). apply (eff_pop st _ f); simpl; auto.
+  - destruct (open_writer_of st w); [|intros [<-|[]]; apply eff_quiet; auto; constructor].
+    destruct (bg_active st w); intros [<-|[]]; apply eff_quiet; simpl; auto; constructor.
+  - destruct (alookup w (st_bg st)) as [[|? ?]|]; intros H; try destruct H as [<-|[]];
+      try (apply eff_quiet; simpl; auto; constructor). destruct H.
 Qed.
 
 Lemma hsucc_effect st st' : In st' (hsucc st) -> effect st st'.
 Proof.
-  unfold hsucc. intros H. apply in_app_or in H. destruct H as [H|H]; [|apply in_app_or in H; destruct H as [H|H]].
+  unfold hsucc. intros H. apply in_app_or in H. destruct H as [H|H]; [|apply in_app_or in H; destruct H as [H|H];
+    [|apply in_app_or in H; destruct H as [H|H]]].
   - pose proof H as Hd. unfold deliver_succs in H. destruct (st_closed st); [destruct H|].
     destruct (st_fifo st) as [|f q] eqn:Ef; [destruct H|].
     apply in_map_iff in H. destruct H as (ss & <- & Hss). apply (eff_pop st _ f); simpl; auto.
@@ -126,6 +147,11 @@ Proof.
     destruct (alookup s (st_strs st)) as [x|]; [|destruct H].
     destruct (can_disc st x); [|destruct H]. destruct H as [<-|[]].
     apply eff_quiet; simpl; auto; try constructor. intros y. reflexivity.
+  - unfold bg_succs in H. apply in_flat_map in H. destruct H as ([w kss0] & _ & H). simpl in H.
+    destruct (alookup w (st_bg st)) as [[|ks rest]|]; try destruct H.
+    destruct (open_writer_of st w) as [wr|] eqn:Ew.
+    + apply do_write_cases in H. eapply dw_result_effect_bg; [exact Ew|exact H].
+    + destruct H as [<-|[]]. apply eff_quiet; simpl; auto; constructor.
 Qed.
 
 Lemma lstep_effect st l st' : lstep st l st' -> effect st st'.
